@@ -5,6 +5,8 @@ package transfer
 import (
 	"context"
 	"hash/crc32"
+	"os"
+	"strings"
 
 	"github.com/sheerbytes/sheerbytes/pkg/manifest"
 )
@@ -90,4 +92,32 @@ func VerifC19ForgetSidecars() {
 	globalSidecarFlushRegistry.mu.Lock()
 	globalSidecarFlushRegistry.active = nil
 	globalSidecarFlushRegistry.mu.Unlock()
+}
+
+// VerifRetireSidecars models the end of a receiver process for every sidecar
+// below dir: each is flushed once (what the signal handler's FlushAllFlushers
+// does), dropped from the process-wide registry and frozen, so that goroutines
+// a harness run left behind can neither mark nor flush it any more. In the
+// real CLI one receiver process runs one transfer; without this an in-process
+// harness that resumes into the same directory has two live Sidecar objects
+// for one path, which no real execution has.
+func VerifRetireSidecars(dir string) int {
+	prefix := strings.TrimRight(dir, string(os.PathSeparator)) + string(os.PathSeparator)
+	globalSidecarFlushRegistry.mu.Lock()
+	var list []*Sidecar
+	for sc := range globalSidecarFlushRegistry.active {
+		if strings.HasPrefix(sc.Path, prefix) {
+			list = append(list, sc)
+			delete(globalSidecarFlushRegistry.active, sc)
+		}
+	}
+	globalSidecarFlushRegistry.mu.Unlock()
+	for _, sc := range list {
+		_ = sc.Flush()
+		sc.mu.Lock()
+		sc.bitmap = nil
+		sc.dirty = false
+		sc.mu.Unlock()
+	}
+	return len(list)
 }
